@@ -1,6 +1,7 @@
 import LibInj.Proofs.Tables
 import LibInj.Spec.GrammarFps
 import LibInj.Sqli.Check
+import LibInj.Proofs.GrammarEval
 /-! # C03 — canonical SQL injection families are detected in every quoting context
 
 The grammar `L` (skeletons × context prefixes × separators × case assignments × tails) is data of
@@ -12,10 +13,19 @@ fingerprints is a blacklist entry (`grammar_fingerprints_blacklisted`) — a del
 fingerprint breaks this theorem without an input having to hit it — and a few members of the grammar
 are evaluated end to end on the model by the kernel (`grammar_samples_detected`).
 
-Not yet a theorem (`sqli_grammar_detected_statement`): that every rendering of a skeleton (any run of
-SQL whitespace bytes or `/**/` as separator, any case) tokenizes and folds to one of those
-fingerprints. The grammar is enumerated exhaustively to its bound on the implementation and
-compared with the model on the same inputs. -/
+**Proved for the enumerated grammar in every letter case (`grammar_detected_any_case`):** for each of
+the 39 skeletons × 6 context prefixes, with every one of the 12 tails (words separated by one space) and
+with every one of the 13 separators (no tail) — 5 850 lower-case members, each evaluated end to end on
+the model by the kernel (`Proofs/GrammarEval`, 39 modules) — *every* re-assignment of ASCII letter case
+of the member is reported as SQLi. The case dimension is closed universally by C10 (`isSQLi` commutes
+with lower-casing outside the exempt positions, and the kernel checks that no member has one), not by
+enumeration. The grammar lists live in `Spec/SqliGrammar.lean` and are compared with the harness's
+lists on every run.
+
+Not yet a theorem (`sqli_grammar_detected_statement`): arbitrary *runs* of SQL whitespace bytes and
+inline comments as separators, and tail × separator combinations beyond the enumerated ones. Those
+are enumerated exhaustively to the bound (and sampled beyond) on the implementation and compared with
+the model on the same inputs. -/
 namespace LibInj.Properties.C03
 open LibInj LibInj.Tables LibInj.Sqli
 
@@ -46,6 +56,41 @@ def samples : List Bytes :=
 
 set_option maxRecDepth 100000 in
 theorem grammar_samples_detected : samples.all (fun s => isTrue1 (isSQLi s)) = true := by decide +kernel
+
+open Spec.SqliGrammar in
+/-- the enumerated grammar, any letter case -/
+def grammar_detected_any_case_statement : Prop :=
+  ∀ sk ∈ skeletons, ∀ p ∈ prefixes,
+    (∀ t ∈ tails, ∀ s', CaseEq (render p sk [32] t) s' → ∃ fp, isSQLi s' = .ok (true, fp)) ∧
+    (∀ sp ∈ seps, ∀ s', CaseEq (render p sk sp []) s' → ∃ fp, isSQLi s' = .ok (true, fp))
+
+open Spec.SqliGrammar in
+/-- **C03 on the enumerated grammar, universally in the case dimension.** -/
+theorem grammar_detected_any_case : grammar_detected_any_case_statement := by
+  intro sk hsk p hp
+  obtain ⟨k, hk, hget⟩ := List.mem_iff_getElem.mp hsk
+  have hk' : k < 39 := by rw [← skeletons_length]; exact hk
+  have hskel : skel k = sk := by
+    unfold skel
+    rw [List.getElem?_eq_getElem hk, hget]; rfl
+  have hall := all_skeletons_ok k hk'
+  rw [hskel, List.all_eq_true] at hall
+  constructor
+  · intro t ht s' hc
+    refine memberOK_any_case _ s' (hall _ ?_) hc
+    unfold membersOf membersTails
+    exact List.mem_append_left _ (List.mem_flatMap.mpr ⟨p, hp, List.mem_map.mpr ⟨t, ht, rfl⟩⟩)
+  · intro sp hsp s' hc
+    refine memberOK_any_case _ s' (hall _ ?_) hc
+    unfold membersOf membersSeps
+    exact List.mem_append_right _ (List.mem_flatMap.mpr ⟨p, hp, List.mem_map.mpr ⟨sp, hsp, rfl⟩⟩)
+
+/-- non-vacuity: `1) UnIoN/**/SeLeCt/**/1,2,3` is a case variant of a member -/
+example : ∃ fp, isSQLi [49,41,32,85,110,73,111,78,47,42,42,47,83,101,76,101,67,116,47,42,42,47,49,44,50,44,51] = .ok (true, fp) := by
+  refine (grammar_detected_any_case [[117,110,105,111,110],[115,101,108,101,99,116],[49,44,50,44,51]] (by decide)
+    [49,41,32] (by decide)).2 [47,42,42,47] (by decide) _ ?_
+  show List.map lowerAscii _ = List.map lowerAscii _
+  decide
 
 def sqli_grammar_detected_statement : Prop :=
   ∀ (ws1 ws2 ws3 : Bytes), ws1 ≠ [] → ws2 ≠ [] → (∀ c ∈ ws1 ++ ws2 ++ ws3, isWhite c = true) →
